@@ -685,7 +685,26 @@ class ClientTls(Client):
             if self.accepted:  # only do this once immediately after accepted
                 if not self.certedhost:
                     self.certedhost = self.ha[0]
-                self.wrap()
+                try:
+                    self.wrap()
+                except OSError as ex:  # ssl.SSLError is a subtype of OSError
+                    self.close()
+                    if ex.errno in (errno.ENOTCONN,
+                                    errno.ECONNABORTED,
+                                    errno.ECONNRESET,
+                                    errno.ECONNREFUSED,
+                                    errno.ENETRESET,
+                                    errno.ENETUNREACH,
+                                    errno.EHOSTUNREACH,
+                                    errno.ENETDOWN,
+                                    errno.EHOSTDOWN,
+                                    errno.ETIMEDOUT,
+                                    errno.EPIPE):
+                        # far side went away before tls could start so give up
+                        # this attempt nicely. Next .connect reopens and tries again
+                        self.cutoff = True
+                        return False
+                    raise
 
         if self.accepted and not self.connected:
             self.handshake()
